@@ -2,6 +2,8 @@ mod a2lgen;
 mod c01;
 mod c03;
 mod c03lex;
+mod c05;
+mod c07;
 mod c12;
 mod c13;
 mod c14;
@@ -55,6 +57,8 @@ fn main() {
         "C01" => c01::run(&args),
         "C03" => c03::run(&args),
         "C03L" => c03lex::run(&args),
+        "C05" => c05::run(&args),
+        "C07" => c07::run(&args),
         "C12" => c12::run(&args),
         "C13" => c13::run(&args),
         "C14" => c14::run_c14(&args),
